@@ -580,6 +580,14 @@ def run(tier, seed, focus=None):
                         {"target": "Hexital(" + ",".join(f"{k}@{t or 'default'}" for k, t in picks) + f", timeframe={hex_tf})",
                          "stream": f"oracles.c19.stream({kind!r},{n},seed={seed + s})"}, candles)
         col.scenario(("encodings-hexital", tuple(picks), hex_tf, n))
+        # a Heikin-Ashi Hexital converts the caller's Candle objects in place: the derived timeframes must have taken their
+        # copies before (order of the fan-out in Hexital.append), so Candle objects and dicts / lists give the same state
+        check_encodings(col, rnd, lambda: Hexital("c19", [], [make(k, t) for k, t in dict.fromkeys(picks)], timeframe=hex_tf,
+                                                  candlestick_type="HA"),
+                        observe_hex,
+                        {"target": "Hexital(" + ",".join(f"{k}@{t or 'default'}" for k, t in picks) + f", timeframe={hex_tf}, candlestick_type='HA')",
+                         "stream": f"oracles.c19.stream({kind!r},{n},seed={seed + s})"}, candles)
+        col.scenario(("encodings-hexital-ha", tuple(picks), hex_tf, n))
         if s % 4 == 0:
             plain = stream(kind, n, seed=seed + s, with_ts=False)
             check_encodings(col, rnd, lambda: make(key, None, []), observe_ind,
